@@ -262,6 +262,107 @@ Qed.
 End Solvers.
 
 (* ------------------------------------------------------------------------------------------------ *)
+(** * The acceptance test belongs to the attempt, on the guessed path as on the guess-free one
+
+    An attempt produces a raw candidate; a candidate is returned only if it passes the solver's acceptance test
+    [accept] (stopping test on the residual with the caller's tolerance, "not the trivial solution", for the
+    critical point of a pure substance "positive pressure").  When every attempt of a cascade is filtered, every
+    result of the cascade is accepted — whether it came from the supplied guess or from a default start. *)
+
+Section Accept.
+Variables P G R : Type.
+Variable accept : P -> R -> bool.
+Variable raw_g : P -> G -> attempt R.
+Variable raw_0 : P -> stage -> attempt R.
+
+Definition filt (p : P) (a : attempt R) : attempt R :=
+  match a with AOk r => if accept p r then AOk r else AIterFail | x => x end.
+
+Definition fatt_g (p : P) (g : G) : attempt R := filt p (raw_g p g).
+Definition fatt_0 (p : P) (s : stage) : attempt R := filt p (raw_0 p s).
+
+Lemma filt_ok : forall p a r, filt p a = AOk r -> accept p r = true.
+Proof.
+  intros p a r H. destruct a; simpl in H; try discriminate.
+  destruct (accept p r0) eqn:E; [inversion H; subst; exact E | discriminate].
+Qed.
+
+(** State::critical_point (critical_point.rs:60-84): a supplied initial temperature is used alone (no fallback);
+    otherwise the trial temperatures 300 K, 700 K, 500 K in this order ([SIdeal], [SSpin], [SStab1] name the three
+    trials), first success wins.  The acceptance test sits inside critical_point_hkm, i.e. inside the attempt. *)
+Definition crit_stages (p : P) (g : option G) : list (stage * bool * attempt R) :=
+  match g with
+  | Some t => [(SGiven, true, fatt_g p t)]
+  | None => [(SIdeal, false, fatt_0 p SIdeal); (SSpin, false, fatt_0 p SSpin); (SStab1, false, fatt_0 p SStab1)]
+  end.
+Definition crit_log p g := cascade (crit_stages p g).
+Definition crit p g : option R := snd (crit_log p g).
+
+(** every solver over filtered attempts returns accepted results only, with or without a guess *)
+Theorem accepted_only : forall p g r,
+  (pure_t fatt_g fatt_0 p g = Some r -> accept p r = true) /\
+  (tp_flash fatt_g fatt_0 p g = Some r -> accept p r = true) /\
+  (bd_t fatt_g fatt_0 p g = Some r -> accept p r = true).
+Proof.
+  intros p g r.
+  assert (Hs : (exists g', fatt_g p g' = AOk r) \/ (exists s, fatt_0 p s = AOk r) -> accept p r = true).
+  { intros [[g' H] | [s H]]; eapply filt_ok; eauto. }
+  split; [|split]; intros H; apply Hs.
+  - eapply pure_t_src; eauto.
+  - eapply tp_flash_src; eauto.
+  - eapply bd_t_src; eauto.
+Qed.
+
+Theorem crit_accepted : forall p g r, crit p g = Some r -> accept p r = true.
+Proof.
+  intros p g r H. unfold crit, crit_log in H. apply cascade_some_in in H. destruct H as [s [ab Hin]].
+  unfold crit_stages in Hin. destruct g as [t|]; simpl in Hin.
+  - destruct Hin as [H | []]. inversion H. eapply filt_ok; eauto.
+  - destruct Hin as [H | [H | [H | []]]]; inversion H; eapply filt_ok; eauto.
+Qed.
+
+(** with a supplied temperature there is no fallback; without one the result is the first accepted trial *)
+Lemma crit_given : forall p t, crit p (Some t) = match fatt_g p t with AOk r => Some r | _ => None end.
+Proof. intros p t. unfold crit, crit_log, crit_stages. simpl. destruct (fatt_g p t); reflexivity. Qed.
+
+Lemma crit_none : forall p,
+  crit p None = match fatt_0 p SIdeal with
+                | AOk r => Some r
+                | _ => match fatt_0 p SSpin with
+                       | AOk r => Some r
+                       | _ => match fatt_0 p SStab1 with AOk r => Some r | _ => None end
+                       end
+                end.
+Proof.
+  intros p. unfold crit, crit_log, crit_stages. simpl.
+  destruct (fatt_0 p SIdeal); simpl; auto; destruct (fatt_0 p SSpin); simpl; auto; destruct (fatt_0 p SStab1); simpl; auto.
+Qed.
+
+(** uniqueness of ACCEPTED candidates is all that guess independence needs *)
+Theorem crit_unique : H_unique_att fatt_g fatt_0 ->
+  forall p g1 g2 r1 r2, crit p g1 = Some r1 -> crit p g2 = Some r2 -> r1 = r2.
+Proof.
+  intros HU p g1 g2 r1 r2 H1 H2.
+  assert (Hsrc : forall g r, crit p g = Some r -> (exists g', fatt_g p g' = AOk r) \/ (exists s, fatt_0 p s = AOk r)).
+  { intros g r H. unfold crit, crit_log in H. apply cascade_some_in in H. destruct H as [s [ab Hin]].
+    unfold crit_stages in Hin. destruct g as [t|]; simpl in Hin.
+    - destruct Hin as [H | []]. inversion H. left. exists t. reflexivity.
+    - destruct Hin as [H | [H | [H | []]]]; inversion H; right; eauto. }
+  apply (HU p); eapply Hsrc; eauto.
+Qed.
+End Accept.
+
+(** if the acceptance test is applied by the retry loop instead of the attempt, the guessed path returns
+    unaccepted candidates: the filter must sit inside the attempt (witness) *)
+Theorem filter_outside_attempt_refuted :
+  exists (accept : nat -> nat -> bool) (raw_g : nat -> nat -> attempt nat) p t r,
+    snd (cascade [(SGiven, true, raw_g p t)]) = Some r /\ accept p r = false
+    /\ crit accept raw_g (fun _ _ => AIterFail) p (Some t) = None.
+Proof.
+  exists (fun _ r => Nat.eqb r 1), (fun _ _ => AOk 0), 0, 0, 0. repeat split.
+Qed.
+
+(* ------------------------------------------------------------------------------------------------ *)
 (** * Continuation loops *)
 
 Section Loops.
@@ -932,6 +1033,17 @@ Definition pstage (t : tab) (n : nat) : list (nat * bool) * list nat :=
   let evs := p_stage_fixed (fun r : nat => r) (fun p (_ : nat) => match att_of t p SGiven with AOk r => Some r | _ => None end) 0 (seq 0 n) in
   (map (fun e => (fst e, match snd e with Some _ => true | None => false end)) evs, fmap_opt (fun e => snd e) evs).
 
+(** State::critical_point without initial temperature: which of the trial temperatures (0 = 300 K, 1 = 700 K,
+    2 = 500 K) supplies the result, given which of the three guessed calls return an accepted result *)
+Definition crit_first (ok300 ok700 ok500 : bool) : option nat :=
+  crit (fun _ _ => true) (fun (_ _ : nat) => @AIterFail nat)
+       (fun _ s => match s with
+                   | SIdeal => if ok300 then AOk 0 else AIterFail
+                   | SSpin => if ok700 then AOk 1 else AIterFail
+                   | SStab1 => if ok500 then AOk 2 else AIterFail
+                   | _ => AAbsent
+                   end) 0 (@None nat).
+
 (** assembly of a binary diagram from the interior results; end points are numbered 2000 and 2001 *)
 Definition binary (bubble : bool) (interior : list nat) : list nat :=
   binary_vle_states bubble 2000 2001 interior.
@@ -950,6 +1062,7 @@ Example tie_demo :
   /\ call KFlash [(0, 0, 0); (0, 4, 2)] true = ([(0, 0)], false)
   /\ call KFlash [(0, 0, 1); (0, 4, 1)] true = ([(0, 1); (4, 1)], false)
   /\ pstage [(0, 1, 2); (1, 1, 2); (2, 1, 1); (3, 1, 2)] 4 = ([(0, true); (1, true); (2, false)], [0; 1])
+  /\ crit_first false true true = Some 1 /\ crit_first false false false = None
   /\ binary false [0; 2] = [2001; 2; 0; 2000]
   /\ vlle [0; 1] [0; 2] = [2000; 0; 1; 1002; 1000; 2001].
 Proof. vm_compute. repeat split. Qed.
